@@ -25,9 +25,21 @@ pub struct Case {
     pub reinclude: Option<(String, String)>,
     pub via_cli: bool,
     pub source: String,
+    /// how the k-th include directive spells its path: 0 plain, 1 "./x", 2 "sub/../x", 3 "./sub/.././x"
+    #[serde(default)]
+    pub spelling: Vec<u8>,
 }
 
 pub struct C15;
+
+fn spell(name: &str, how: u8) -> String {
+    match how {
+        1 => format!("./{name}"),
+        2 => format!("sub/../{name}"),
+        3 => format!("./sub/.././{name}"),
+        _ => name.to_string(),
+    }
+}
 
 /// Expansion order: for every non-include line of the include tree, the original line index.
 fn paste_order(files: &[(String, Vec<Line>)], skip: &dyn Fn(&str) -> bool) -> Vec<(usize, usize)> {
@@ -95,7 +107,34 @@ impl C15 {
         if let Some((_, f)) = &case.fault {
             ctx.label(format!("fault:{f:?}"));
         }
-        let rendered: Vec<(String, Rendered)> = files.iter().map(|(n, l)| (n.clone(), render_plain(l))).collect();
+        // the same include tree with every path spelled as the case says (same lines, other operand text)
+        let mut k_inc = 0;
+        let mut nonplain = false;
+        let files_spelled: Vec<(String, Vec<Line>)> = files
+            .iter()
+            .map(|(n, ls)| {
+                let ls = ls
+                    .iter()
+                    .map(|l| match l {
+                        Line::Dir(d, ops) if d == ".include" && !case.spelling.is_empty() => {
+                            let how = case.spelling[k_inc % case.spelling.len()];
+                            k_inc += 1;
+                            nonplain |= how != 0;
+                            match ops.first() {
+                                Some(Opd::S(name)) => Line::Dir(d.clone(), vec![Opd::S(spell(name, how))]),
+                                _ => l.clone(),
+                            }
+                        }
+                        _ => l.clone(),
+                    })
+                    .collect();
+                (n.clone(), ls)
+            })
+            .collect();
+        if nonplain {
+            ctx.label("include-path-spelled-with-dots");
+        }
+        let rendered: Vec<(String, Rendered)> = files_spelled.iter().map(|(n, l)| (n.clone(), render_plain(l))).collect();
         let texts: adapter::Files = rendered.iter().map(|(n, r)| (n.clone(), r.text.clone())).collect();
         let all_text = texts.iter().map(|(n, t)| format!("--- {n}\n{t}")).collect::<String>();
         let faults: Vec<(String, Fault)> = case.fault.iter().cloned().collect();
@@ -260,6 +299,7 @@ impl C15 {
     fn cli_part(texts: &adapter::Files, split: &adapter::LintOut, fault: &Option<(String, Fault)>, ctx: &mut Ctx, all_text: &str) -> Vec<Violation> {
         let mut out = vec![];
         let dir = cli::scratch("c15", crate::runner::next_serial());
+        let _ = std::fs::create_dir_all(dir.join("sub"));
         for (n, t) in texts {
             if fault.as_ref().map(|f| f.0 == *n).unwrap_or(false) {
                 continue; // missing file
@@ -272,12 +312,18 @@ impl C15 {
             .iter()
             .map(|p| std::fs::canonicalize(p).map(|c| c.to_string_lossy().into_owned()).unwrap_or_else(|_| p.clone()))
             .collect();
+        // a path may be printed as it was spelled in the directive: every spelling names the same file
+        let spelled: Vec<(String, String)> = texts
+            .iter()
+            .flat_map(|(n, _)| (1..4u8).map(|how| (dir.join(spell(n, how)).to_string_lossy().into_owned(), n.clone())).collect::<Vec<_>>())
+            .collect();
         let name_of = |p: &str| -> String {
             paths
                 .iter()
                 .chain(canon.iter())
                 .position(|q| q == p)
                 .map(|k| texts[k % texts.len()].0.clone())
+                .or_else(|| spelled.iter().find(|(q, _)| q == p).map(|(_, n)| n.clone()))
                 .unwrap_or_else(|| p.to_string())
         };
         let mk = |clause: &str, msg: String| Violation::new(format!("{msg}\n{all_text}")).with("via", "cli").with("clause", clause);
@@ -300,7 +346,7 @@ impl C15 {
                 return vec![mk("cli-crash", format!("rva lint {what} exited with {:?}/{:?}, stderr: {}", r.status, r.signal, r.stderr.chars().take(300).collect::<String>()))];
             }
         }
-        let all_names: Vec<String> = paths.iter().chain(canon.iter()).cloned().collect();
+        let all_names: Vec<String> = paths.iter().chain(canon.iter()).cloned().chain(spelled.iter().map(|(q, _)| q.clone())).collect();
         match (cli::parse_compact(&all.stdout, &all_names), cli::parse_compact(&def.stdout, &all_names)) {
             (Ok((va, _)), Ok((vd, others))) => {
                 // library result, as (file, line, col, title)
@@ -364,8 +410,9 @@ impl Prop for C15 {
             files,
             fault,
             reinclude,
-            via_cli: ch.chance(1, 12),
+            via_cli: ch.chance(1, 8),
             source: base.source,
+            spelling: if ch.chance(1, 3) { (0..4).map(|_| ch.below(4) as u8).collect() } else { vec![] },
         })
     }
 
@@ -374,6 +421,6 @@ impl Prop for C15 {
     }
 
     fn show(case: &Case) -> Value {
-        json!({"files": case.files.iter().map(|(n, l)| (n.clone(), render_plain(l).text)).collect::<Vec<_>>(), "fault": case.fault, "reinclude": case.reinclude, "via_cli": case.via_cli})
+        json!({"files": case.files.iter().map(|(n, l)| (n.clone(), render_plain(l).text)).collect::<Vec<_>>(), "fault": case.fault, "reinclude": case.reinclude, "via_cli": case.via_cli, "spelling": case.spelling})
     }
 }
